@@ -377,6 +377,14 @@ func c03Run(c *core.Ctx) {
 				c03One(c, cs)
 			}
 		})
+		// E-pairs: the statements of each program inside the pair are what they are alone
+		forPairs(c, f, pairLevel(c), 1, func(p, s *corpus.Item, src string) {
+			cs := mkCase(src, f.V, "pair of corpus programs accepted by the reference LR driver")
+			cs.Aux = "valid"
+			c.P.Traces++
+			c03One(c, cs)
+			pairContext(c, f, p, s, src)
+		})
 	}
 	c03Chains(c)
 	c03Heredocs(c)
